@@ -916,9 +916,82 @@ func c06InconsistentKeys(run *mon.Run, r *rand.Rand, g *thrGroup) {
 	}
 }
 
+// c06CancellingInvalidShares: two well-formed but invalid shares whose errors cancel in the Lagrange
+// interpolation (share_a + [lambda_b]Q and share_b - [lambda_a]Q), stored with TrustedAdd. The reconstructed
+// signature IS the group signature, so ThresholdSignature succeeds - which says nothing about the
+// individual shares: VerifyShare still rejects both, before and after the signature was computed, and a
+// fresh object given the same shares through VerifyAndAdd refuses them.
+func c06CancellingInvalidShares(run *mon.Run, r *rand.Rand, g *thrGroup) {
+	signers := r.Perm(g.n)[:g.t+1]
+	a, b := signers[0], signers[1]
+	lambda := func(i int) *big.Int {
+		num, den := big.NewInt(1), big.NewInt(1)
+		for _, j := range signers {
+			if j == i {
+				continue
+			}
+			num = ref.Fr.Mul(num, big.NewInt(int64(j+1)))
+			den = ref.Fr.Mul(den, ref.Fr.Sub(big.NewInt(int64(j+1)), big.NewInt(int64(i+1))))
+		}
+		return ref.Fr.Mul(num, ref.Fr.Inv(den))
+	}
+	Q := ref.E1.Mul(ref.G1Gen, randScalar(r))
+	dec := func(sig []byte) ref.G1 { p, _ := ref.DecodeG1(sig); return p }
+	badA := ref.EncodeG1(ref.E1.Add(dec(g.share[a]), ref.E1.Mul(Q, lambda(b))))
+	badB := ref.EncodeG1(ref.E1.Sub(dec(g.share[b]), ref.E1.Mul(Q, lambda(a))))
+	rep := map[string]any{"n": g.n, "t": g.t, "signers": signers, "bad_a": mon.Hex(badA), "bad_b": mon.Hex(badB)}
+	run.Guard("stateful(cancelling invalid shares)", rep, func() {
+		ins, err := g.inspector()
+		if err != nil {
+			return
+		}
+		judge := func(when string) {
+			for _, c := range []struct {
+				i  int
+				sh []byte
+			}{{a, badA}, {b, badB}} {
+				ok, e := ins.VerifyShare(c.i, c.sh)
+				run.Eval(1)
+				if ok || e != nil {
+					run.Violate("C06:cancelling-invalid-shares:verify-share", fmt.Sprintf("VerifyShare(%d, invalid share) = (%v, %v) %s", c.i, ok, e, when), rep)
+				}
+			}
+		}
+		judge("before anything was added")
+		for _, s := range signers {
+			sh := g.share[s]
+			if s == a {
+				sh = badA
+			} else if s == b {
+				sh = badB
+			}
+			_, _ = ins.TrustedAdd(s, sh)
+		}
+		sig, e := ins.ThresholdSignature()
+		run.Eval(1)
+		if e != nil || !bytes.Equal(sig, g.E) {
+			run.Violate("C06:cancelling-invalid-shares:reconstruction", fmt.Sprintf("two invalid shares whose errors cancel in the interpolation: ThresholdSignature() = %x (err %v), the interpolation of these shares is the group signature %x", []byte(sig), e, g.E), rep)
+			return
+		}
+		judge("after ThresholdSignature() succeeded on a pool holding them")
+		if ok, e := ins.VerifyShare(signers[len(signers)-1], g.share[signers[len(signers)-1]]); !ok || e != nil {
+			run.Violate("C06:cancelling-invalid-shares:verify-share", "a valid share is rejected after the signature was computed", rep)
+		}
+		ins2, _ := g.inspector()
+		v1, _, _ := ins2.VerifyAndAdd(a, badA)
+		v2, _, _ := ins2.VerifyAndAdd(b, badB)
+		if v1 || v2 {
+			run.Violate("C06:cancelling-invalid-shares:verify-and-add", "VerifyAndAdd accepts one of the invalid shares", rep)
+		}
+	})
+	run.Count("cancelling-invalid-shares.cases", 1)
+	run.Shape("cancelling-invalid-shares")
+}
+
 func c06InvalidShares(run *mon.Run, r *rand.Rand, g *thrGroup) {
 	c06CompensatingLengths(run, r, g)
 	c06InconsistentKeys(run, r, g)
+	c06CancellingInvalidShares(run, r, g)
 	signers := r.Perm(g.n)[:g.t+1]
 	kinds := []string{"other-signer", "random-g1", "plus-T3", "malformed", "wrong-length", "infinity", "empty"}
 	for pos := 0; pos <= g.t; pos++ {
